@@ -258,3 +258,61 @@ CFG['trusted_base'] += [
     'Model/TagSetup.lean as a transcription of the set-up loops (range over a slice being compacted reads element i at iteration i; '
     'obitax.TaxonSet is a Go map: a failed Taxon() stores a nil node under the key)',
     'harness prediction of crashes inside worker goroutines (real obitag.Identify / IndexSequence on arrays built by the harness)']
+
+# ---- glue pass: references that ALREADY carry an obitag_ref_index (Model/TagStored.lean, Lemmas/TagStored.lean,
+# Props/C15G.lean, harness/c15_stored.go)
+CFG['lean_modules'].append('ObiVerif.Props.C15G')
+CFG['rule'] += (
+    ' GLUE PASS (stored indices): rx / cl1 with a sixth / seventh word ix=I1;I2;.. = the obitag_ref_index attribute each record of the FILE already '
+    'carries when the data base is loaded (format of sl1; - = no attribute, _ = empty map), set with the three Go types OBITagRefIndex() accepts '
+    '(map[int]string, map[string]interface{}, map[string]string, chosen per record). rx: the REAL obirefidx.IndexReferenceDB must write, for every '
+    'kept record, the index IndexSequence builds on the kept list - the model (refidxOutI) never looks at the stored attribute, the index statement '
+    'is checked on every index written. cl1: the REAL obitag.CLIAssignTaxonomy; the model (cliAssign1I) hands a stored index as is to the verbatim '
+    'selection loop and builds a missing one on the kept list; hang (selection loop repeating itself on a trusted map: empty, far keys) and panic '
+    '(taxid foreign to the taxonomy) are predicted with the real obitag.Identify on harness-built arrays carrying the stored maps. The assignment '
+    'oracle (exact LCA / ancestor) is applied iff every stored index of a kept record obeys the index statement on the kept list of this very data '
+    'base (the hypothesis StoredFresh of cli_assign_stored_lossless_partial, decided by brute force); otherwise the over-specific assignment is '
+    'counted (cl1:stale-stored-index:*), not reported: the search part (match count, bestmatch, bestid) is still checked. Generator (stale indices '
+    'built by the real IndexSequence on the list they pretend to come from): two data bases indexed separately then concatenated (split / '
+    'interleaved: every record indexed, every index stale - the demo of seeded/C15-m6 is in the corpus), indexed then filtered, indexed then '
+    'extended, valid indices on all / some records (control), per record: none / empty map / built on a sub-list / index of another record / keys '
+    'shifted / keys 999..1002, 2000 / built alone / one entry / taxid foreign to the taxonomy; records with an unknown taxid carry an attribute too '
+    '(first, between, last: the attribute of a kept record must be its own). 23 corpus + 70 (quick) / 130 per seed (thorough) random cases.')
+CFG['technique'] += (
+    ' Glue pass: a record = (bytes, taxid) + its stored attribute; the commands on such records are composed from the round-4 set-up theorems '
+    '(refidxIndex_eq, cliAssign1_eq): no new loop, the statement is about which index reaches the selection loop.')
+CFG['level_text'] += (
+    ' GLUE PASS (Props/C15G.lean, unbounded inputs, any stored attributes): refidx_recomputes_every_index (whatever obitag_ref_index the records '
+    'carry at input, the record IndexReferenceDB writes for the b-th record with a known taxid is that record with indexSequenceV on the list of ALL '
+    'kept records), refidx_output_ignores_stored_index (two files with the same records and different stored indices give the same output), '
+    'cli_assign_trusts_stored_index (the EXACT trust rule of obitag, last record known: verbatim search on the kept list; for a best reference a '
+    'stored index is used as is, a missing one is built on the kept list), cli_assign_stored_same_list (StoredFresh - every stored index is the text '
+    'of the index IndexSequence builds on the kept list of this very file - : same answer as without attributes), '
+    'cli_assign_stored_lossless_partial (PARTIAL: under StoredFresh and the hypotheses of cli_assign_lossless the assigned taxon is an '
+    'ancestor-or-self of the taxon of every kept reference at minimal distance), cli_assign_stale_index_overspecific (the hypothesis cannot be '
+    'dropped: data base [a (taxon 4), x (taxon 3)] at distance 1 of each other, a carrying the index built on [a] alone: the worker assigns 4 to a '
+    'query at distance 1 of a, the answer without stored index - or after obirefidx - is the root).')
+CFG['level_note'] += (
+    ' GLUE PASS. Glue: (1) obirefidx: main.go -> CLIReadBioSequences -> IndexReferenceDB = Load, taxonomy, taxid filter + compaction [modelled+proved, '
+    'round 4], stored obitag_ref_index of the input NEVER read, every kept record re-indexed and the attribute overwritten on a copy [modelled+proved: '
+    'refidx_recomputes_every_index; tied: rx ix=..], 10-record work units over nworkers goroutines, Rebatch [tied: set of records compared, order not '
+    'part of C15], writer [not covered here: C02/C04]. (2) obitag: main.go -> CLIRefDB -> CLIAssignTaxonomy set-up [modelled+proved, round 4] -> '
+    'IdentifySeqWorker -> Identify: FindClosests [proved], per best reference idx := OBITagRefIndex(); nil -> IndexSequence on the arrays of the '
+    'set-up, else TRUSTED [modelled+proved: cli_assign_trusts_stored_index; lossless only under StoredFresh; tied: cl1 ix=..], selection loop '
+    '[proved, round 2], consensus [proved]; options -R / --save-db / geometric mode (CLIGeometricMode, GeomIdentify) [not covered]. The conversion of '
+    'the map[string]interface{} / map[string]string forms by OBITagRefIndex (Atoi of the keys, InterfaceToString) is exercised by the harness '
+    '(all three forms), not modelled (non-numeric keys panic: not generated). That the attribute of a kept record is the one it carried in the file is '
+    'read from references[j] = seq (pointers move), not from a transcription of the compaction on annotated records (keptI = filter; keptI_plain '
+    'ties it to the round-4 kept list); tied by the cases whose dropped records carry attributes. OBSERVATION (design, not a C15 defect of the '
+    'code as it is): obitag cannot tell a stale index from a valid one - a data base made by concatenating / filtering indexed files must go '
+    'through obirefidx again, which does recompute (refidx_recomputes_every_index); an empty stored map makes obitag spin for ever on the first '
+    'query that selects the reference (selection_spins_iff).')
+CFG['modelled'] += (
+    '; glue pass: pkg/obitools/obirefidx/obirefidx.go (IndexReferenceDB: Copy + SetOBITagRefIndex on every kept record whatever it carried), '
+    'pkg/obitools/obitag/obitag.go (Identify: idx := best.OBITagRefIndex(); if idx == nil {IndexSequence}), pkg/obiseq/attributes.go '
+    '(OBITagRefIndex: nil iff the attribute is absent)')
+CFG['assumptions'] += [
+    'glue pass: stored indices are maps with natural keys and ASCII texts; cli_assign_stored_lossless_partial assumes StoredFresh (every stored '
+    'index = the index IndexSequence builds on the kept list of the same file, with the candidate orders of the case)']
+CFG['trusted_base'] += [
+    'Model/TagStored.lean: the annotations of a record travel with it through the in-place compaction (references[j] = seq moves a pointer)']
